@@ -284,12 +284,15 @@ class BaseDOELibrary(BaseDriverLibrary, Serializable):
             # The list of inputs of the tasks is the list of samples
             # A callback function stores the samples on the fly
             # during the parallel execution.
-            parallel.execute(self.samples, exec_callback=callbacks)
-            if use_database:
-                # We added empty entries by default to keep order in the database
-                # but when the DOE point is failed, this is not consistent
-                # with the serial exec, so we clean the DB
-                database.remove_empty_entries()
+            try:
+                parallel.execute(self.samples, exec_callback=callbacks)
+            finally:
+                if use_database:
+                    # We added empty entries by default to keep order in the database
+                    # but when the DOE point is failed
+                    # or when a termination criterion stops the DOE,
+                    # this is not consistent with the serial exec, so we clean the DB
+                    database.remove_empty_entries()
 
         else:
             # Sequential execution
